@@ -515,6 +515,14 @@ func pickOp(g *gen, mode string) failOp {
 		}
 	}
 	gr := groups[g.intn("group", 0, len(groups)-1)]
+	if mode == "overflow" {
+		// the wide template is an open finding (always discarded while the
+		// switch is on): draw it rarely so the test keeps its case count
+		gr = "frame-overflow"
+		if g.chance("wide", 10) {
+			gr = "frame-overflow-wide"
+		}
+	}
 	idx := opsByGroup[gr]
 	return allOps[idx[g.intn("variant", 0, len(idx)-1)]]
 }
